@@ -185,6 +185,15 @@ class GenModel(torch.nn.Module):
 		return y
 
 
+def _user_scale_hook(module, inputs, output):
+	"""A user's own forward hook (must survive every tangermeme call)."""
+	return output * 0.9375
+
+
+def _user_pre_hook(module, inputs):
+	return None
+
+
 def build_model(spec):
 	"""Deterministic model from a spec: weights from spec['wseed']."""
 	g = torch.Generator().manual_seed(int(spec["wseed"]))
@@ -204,6 +213,21 @@ def build_model(spec):
 		m.train()
 	else:
 		m.eval()
+	if spec.get("user_hooks"):
+		acts = [sub for sub in m.modules() if type(sub).__module__.startswith(
+			"torch.nn.modules.activation")]
+		convs = [sub for sub in m.modules() if isinstance(sub, (torch.nn.Conv1d,
+			torch.nn.Linear))]
+		if acts:
+			acts[0].register_forward_hook(_user_scale_hook)
+			acts[-1].register_forward_pre_hook(_user_pre_hook)
+		if convs:
+			convs[0].register_forward_hook(_user_scale_hook)
+	if spec.get("stale_grads"):
+		# as in the middle of a training step: parameters already carry .grad
+		g2 = torch.Generator().manual_seed(int(spec["wseed"]) + 5)
+		for p in m.parameters():
+			p.grad = torch.randn(p.shape, generator=g2, dtype=torch.float64).to(p.dtype)
 	if spec.get("mixed_mode"):
 		# root in eval mode, one stateful/random sub-module left in training mode
 		m.eval()
@@ -284,7 +308,8 @@ def gen_spec(r, L=None, need_nonlinear=True, allow_custom=True, allow_args=True,
 		"wseed": r.subseed(), "wscale": r.choice([0.3, 0.7, 1.2]),
 		"dtype": r.choice(["float64", "float64", "float32"]),
 		"train_mode": r.chance(0.3), "alias_act": r.chance(0.15),
-		"mixed_mode": r.chance(0.15)}
+		"mixed_mode": r.chance(0.15), "user_hooks": r.chance(0.15),
+		"stale_grads": r.chance(0.25)}
 
 
 def gen_onehot(seed, n, L, n_zero_cols=0, alphabet=4, dtype=torch.float64):
@@ -357,6 +382,7 @@ class Snapshot(object):
 		self.hooks = hook_census(model)
 		self.state = {k: _tbytes(v) for k, v in model.state_dict().items()}
 		self.req = {n: p.requires_grad for n, p in model.named_parameters()}
+		self.grads = {n: _tbytes(p.grad) for n, p in model.named_parameters()}
 		self.training = {n: m.training for n, m in model.named_modules()}
 		self.grad_enabled = torch.is_grad_enabled()
 		self.probe_X, self.probe_args = probe_X, probe_args
@@ -379,6 +405,12 @@ class Snapshot(object):
 			if ch:
 				bad.append(("state_changed", "parameters/buffers not bit-identical: %r"
 					% ch[:6]))
+		grads = {n: _tbytes(p.grad) for n, p in model.named_parameters()}
+		if grads != self.grads:
+			ch = [n for n in grads if grads[n] != self.grads.get(n)]
+			bad.append(("param_grad_changed", "the .grad of parameters %r was changed by the "
+				"call (gradients a caller has accumulated, or None, must be left alone)"
+				% ch[:5]))
 		req = {n: p.requires_grad for n, p in model.named_parameters()}
 		if req != self.req:
 			bad.append(("requires_grad_changed", "requires_grad flags changed: %r" % (
